@@ -164,6 +164,50 @@ def _replay_chunk(arg):
     return res
 
 
+# ------------------------------------------------------------------ the request is input (S->I)
+
+def _req_one(arg):
+    """one exported request: the chain molecule rendered as a force field whose links select by residue name only, asked for with the
+    exported -seq block list (or a sequence file); judged like every S->I case"""
+    k, rq = arg
+    cs = rq["case"]
+    with tempfile.TemporaryDirectory(prefix="verif_c11_", dir="/var/tmp") as wd:
+        try:
+            ff, seq = iu.render_chain(cs["mol"])
+        except ValueError as exc:
+            return k, "machinery", "cannot render: %s" % exc
+        Path(wd, "in.ff").write_text(ff)
+        Path(wd, "seq.json").write_text(seq)
+        how = (["-seq"] + rq["words"]) if rq["kind"] == "seq" else ["-seqf", "seq.json"]
+        rec = iu.observe(["polyply", "gen_params", "-f", "in.ff"] + how + ["-name", cs["mol"]["name"], "-o", "out.itp"], wd)
+    if not rec["accepted"]:
+        return k, "machinery", "the rendered request did not pass mapping and link application: %s" % rec["exception"]
+    status, what = judge(cs, rec)
+    return k, status, what
+
+
+def request_replay(ck, res):
+    reqs = res.tagged("REQ")
+    if len(reqs) < 40 or not all(r["case"]["law"] and r["case"]["rglaw"] and not r["case"]["missing"] for r in reqs):
+        raise c.MachineryError("ItpRoundTripReq exported %d requests (or one for which a law fails)" % len(reqs))
+    nlong = sum(1 for r in reqs if r["kind"] == "seq" and len(r["words"]) >= 11)
+    ck.extra["requests_exported"] = len(reqs)
+    ck.extra["requests_with_11_or_more_seq_blocks"] = nlong
+    ck.require(nlong >= 3, "no long -seq request in the export")
+    for k, status, what in c.pmap(_req_one, list(enumerate(reqs))):
+        rq = reqs[k]
+        if status == "machinery":
+            raise c.MachineryError("request %s: %s" % (rq["words"], what))
+        ck.replayed += 1
+        ck.count("req:%s:%s" % (rq["kind"], " ".join(rq["words"])))
+        ck.actions["request:" + rq["kind"]] = ck.actions.get("request:" + rq["kind"], 0) + 1
+        if status != "ok":
+            ck.violation({"kind": "request", "request": rq},
+                         what="request %s (%d residues): %s" % ("-seq " + " ".join(rq["words"]) if rq["kind"] == "seq" else "-seqf (chain %s)" % " ".join(rq["words"]),
+                                                                len(rq["case"]["mol"]["rnodes"]), what))
+    ck.sample({"request (S->I)": {"kind": "seq", "words": next(r["words"] for r in reqs if r["kind"] == "seq" and len(r["words"]) >= 11)}})
+
+
 # ------------------------------------------------------------------ gen_coords consumes the file
 
 class _Timeout(Exception):
@@ -337,6 +381,11 @@ def io_jobs(tier, sd):
         jobs.append({"kind": "cmd", "label": label, "argv": argv})
     for label, argv, d in iu.library_homopolymers(rng, 3 if tier == "quick" else 12):
         jobs.append({"kind": "cmd", "label": label, "argv": argv})
+    # the same library polymers asked for with long lists of blocks (the request goes into the header of the file)
+    for k in range(12 if tier == "quick" else 60):
+        lib, blk, _ = LIBSEQ[k % len(LIBSEQ)]
+        blocks = ["%s:%d" % (blk, rng.randint(1, 2)) for _ in range(rng.randint(10, 15))]
+        jobs.append({"kind": "cmd", "label": "long -seq request", "argv": ["polyply", "gen_params", "-lib", lib, "-seq"] + blocks + ["-name", "poly", "-o", "out.itp"]})
     return jobs
 
 
@@ -450,6 +499,12 @@ def _in_own_process(func, *args):
     return doc["ok"]
 
 
+def _preload():
+    """modules only (no call into them): a forked history process need not import them again"""
+    import numpy, networkx, scipy.spatial, vermouth, vermouth.forcefield, vermouth.gmx.itp, vermouth.file_writer     # noqa: F401
+    import polyply, polyply.src.logging, polyply.src.gen_itp, polyply.src.topology, polyply.src.load_library, polyply.src.meta_molecule   # noqa: F401
+
+
 def _msg_of(op):
     return {"lv": op["lv"], "on": op["on"]} if op.get("lv", "none") != "none" else None
 
@@ -469,6 +524,7 @@ def _hist_chunk(arg):
     path, = arg
     doc = json.loads(Path(path).read_text())
     mols = doc["mols"]
+    _preload()
     return [tuple(_in_own_process(_hist_one, mols, hid, hist)) for hid, hist in doc["hists"]]
 
 
@@ -476,7 +532,10 @@ def _hist_one(mols, hid, hist):
     """one exported history, executed from the start of a process; -> (hid, None | (operation, what), coverage counters)"""
     import vermouth.forcefield
     from polyply.src.load_library import load_ff_library
-    cov = {"gens": 0, "gens_with_message": 0, "gens_after_error_logged": 0, "gens_after_warning_logged": 0, "error_records": 0}
+    os.environ.pop("GMXLIB", None)      # the process of the model starts with an empty include search path
+    cov = {"gens": 0, "gens_with_message": 0, "gens_after_error_logged": 0, "gens_after_warning_logged": 0, "error_records": 0,
+           "reads_with_search_path_listing_a_same_named_other_file": 0}
+    libheld = {}         # what the library directory holds under each name (molecule index)
     bad = None
     shared = None        # the one force field of the process that from_itp reads into (op "readff")
     with tempfile.TemporaryDirectory(prefix="verif_c11h_", dir="/var/tmp") as wd:
@@ -484,8 +543,35 @@ def _hist_one(mols, hid, hist):
             if op["op"] == "init":
                 shared = "lib" if op["path"] == "lib" else vermouth.forcefield.ForceField("in use")
                 continue
+            libdir = Path(wd) / "library"
+            if op["op"] == "setenv":
+                # the environment of the process: the include search path lists the library directory, or nothing
+                if op["path"] == "lib":
+                    libdir.mkdir(exist_ok=True)
+                    os.environ["GMXLIB"] = str(libdir)
+                else:
+                    os.environ.pop("GMXLIB", None)
+                continue
             cs = mols[op["m"] - 1]
             itp = Path(wd) / ("%s.itp" % op["path"])
+            if op["op"] == "genlib":
+                # the same file name in another directory: gen_params -o <library>/X.itp, run from the run directory
+                libdir.mkdir(exist_ok=True)
+                sub = Path(wd) / ("in_%d" % k)
+                sub.mkdir()
+                ff, seq = iu.render_case(cs["mol"], (hid + k) % 2)
+                (sub / "in.ff").write_text(ff)
+                (sub / "seq.json").write_text(seq)
+                rec = iu.run_command(["polyply", "gen_params", "-f", str(sub / "in.ff"), "-seqf", str(sub / "seq.json"), "-name", cs["mol"]["name"],
+                                      "-o", str(libdir / itp.name)], wd, keep_existing=True, live_log=True)
+                if rec["exception"] or not rec["written"]:
+                    bad = (k, "mapping and link application passed but gen_params did not write %s in the library directory (%s)" % (
+                        itp.name, rec["exception"] or "the file at the path was not replaced"))
+                    break
+                libheld[op["path"]] = op["m"]
+                continue
+            if op["op"] in ("read", "readff") and os.environ.get("GMXLIB") and libheld.get(op["path"], op["m"]) != op["m"]:
+                cov["reads_with_search_path_listing_a_same_named_other_file"] += 1
             if op["op"] == "gen":
                 sub = Path(wd) / ("in_%d" % k)
                 sub.mkdir()
@@ -542,8 +628,9 @@ def _hist_one(mols, hid, hist):
                             d = "the residue graph recovered from the file is %s, requested %s" % (_graph(rb[which]), _graph(cs["rg"]))
                             break
                 if d:
-                    bad = (k, "the topology including %s was read after molecule %d had been written there, but the reader returned something else: %s" % (
-                        itp.name, op["m"], d))
+                    bad = (k, "the topology including %s was read after molecule %d had been written there, but the reader returned something else: %s%s" % (
+                        itp.name, op["m"], d, ("; GMXLIB lists a directory that holds a file of the same name with molecule %d" % libheld[op["path"]])
+                        if os.environ.get("GMXLIB") and op["path"] in libheld else ""))
                     break
     return hid, bad, cov
 
@@ -599,7 +686,20 @@ def _select_msg(hmsg, rng, n):
     return pick, len(strata)
 
 
-def history_replay(ck, res, resff, resmsg, tier, rng):
+def _env_clash(hist):
+    """a read while the search path lists the library directory and that directory holds another molecule under the name"""
+    env, libheld = False, {}
+    for op in hist:
+        if op["op"] == "setenv":
+            env = op["path"] == "lib"
+        elif op["op"] == "genlib":
+            libheld[op["path"]] = op["m"]
+        elif op["op"] == "read" and env and libheld.get(op["path"], op["m"]) != op["m"]:
+            return True
+    return False
+
+
+def history_replay(ck, res, resff, resmsg, resenv, tier, rng):
     mols = res.tagged("HMOLS")
     hists = res.tagged("HIST")
     hff = resff.tagged("HIST")
@@ -638,7 +738,19 @@ def history_replay(ck, res, resff, resmsg, tier, rng):
     got = {cl[0] for cl in map(_msg_class, msgsel) if cl}
     if want - got and not ck.violations:
         raise c.MachineryError("the replayed message histories do not cover %s" % sorted(want - got))
-    todo = list(enumerate(rew + rest + reuse + ffrest + msgsel))
+    henv = resenv.tagged("HIST")
+    keyenv = {json.dumps(h, sort_keys=True): h for h in henv}
+    henv = [keyenv[k] for k in sorted(keyenv)]
+    clash = [h for h in henv if _env_clash(h)]
+    envrest = [h for h in henv if not _env_clash(h)]
+    ck.extra["environment_histories_exported"] = len(henv)
+    ck.extra["environment_histories_reading_while_the_search_path_lists_a_same_named_other_file"] = len(clash)
+    nclash, nenvrest = (160, 60) if tier == "quick" else (len(clash), len(envrest))
+    clash = rng.sample(clash, min(len(clash), nclash))
+    envrest = rng.sample(envrest, min(len(envrest), nenvrest))
+    if len(clash) < 50 and not ck.violations:
+        raise c.MachineryError("too few environment histories with a clash of names on the search path (%d)" % len(clash))
+    todo = list(enumerate(rew + rest + reuse + ffrest + msgsel + clash + envrest))
     if (len(rew) < 50 or len(reuse) < 50) and not ck.violations:
         raise c.MachineryError("too few histories read a path again after it was rewritten (%d) / read into a force field in use (%d)" % (len(rew), len(reuse)))
     wdir = c.workdir(PROP, "hist_export")
@@ -672,7 +784,10 @@ def history_replay(ck, res, resff, resmsg, tier, rng):
     # the binding is vacuous unless the messages really reach the logging system of the process and runs follow them in the same process
     if (cov.get("error_records", 0) < 20 or cov.get("gens_after_error_logged", 0) < 20 or cov.get("gens_after_warning_logged", 0) < 20) and not ck.violations:
         raise c.MachineryError("the replayed histories hardly ever run gen_params in a process that has logged an error / a warning before: %s" % cov)
+    if cov.get("reads_with_search_path_listing_a_same_named_other_file", 0) < 50 and not ck.violations:
+        raise c.MachineryError("the replayed histories hardly ever read while the search path lists a directory with another file of that name: %s" % cov)
     ck.sample({"history (S->I)": rew[0], "history with a long-lived force field (S->I)": reuse[0],
+               "history with a library directory on the include search path (S->I)": clash[0],
                "history with a message-carrying force field (S->I)": next((h for h in msgsel if _msg_class(h) and _msg_class(h)[0][1] == "error"), msgsel[0]), "molecules by index": [{"atoms": len(m["mol"]["atoms"]), "residues": len(m["mol"]["rnodes"]),
                                                                    "interactions": [(x["sec"], x["gk"]) for x in m["mol"]["inter"]]} for m in mols]})
 
@@ -683,6 +798,7 @@ LIBSEQ = [("martini3", "PEO", "EC"), ("martini3", "PS", "B"), ("martini3", "PE",
 
 
 def _hist_trace_one(seed):
+    _preload()
     return _in_own_process(_hist_trace_body, seed)
 
 
@@ -700,8 +816,12 @@ def _hist_trace_body(seed):
     import vermouth.forcefield
     from polyply.src.load_library import load_ff_library
     rng = random.Random(seed)
+    os.environ.pop("GMXLIB", None)
     paths = ["P1", "P2", "P3"][:rng.choice([2, 2, 3])]
     events, have = [], set()
+    # every second history also has an ENVIRONMENT: a library directory that receives files of the same names, and an include
+    # search path (GMXLIB) that lists it from some moment on / no longer lists it
+    envhist = seed % 2 == 1
     # every third history: homopolymers named after their residue (-name PEO -seq PEO:n), read into the loaded library itself
     named = seed % 3 == 0
     # message sections: a third of the histories has none at all, the others in any run with probability pmsg; the first
@@ -715,10 +835,31 @@ def _hist_trace_body(seed):
     else:
         name, shared = "poly", vermouth.forcefield.ForceField("in use")
     with tempfile.TemporaryDirectory(prefix="verif_c11h_", dir="/var/tmp") as wd:
-        for k in range(rng.randint(10, 14)):
+        libdir = Path(wd) / "library"
+        libdir.mkdir()
+        for k in range(rng.randint(10, 14) + (4 if envhist else 0)):
             p = rng.choice(paths)
             itp = Path(wd) / ("%s.itp" % p)
-            if p not in have or rng.random() < 0.4:
+            inlib = False
+            if envhist and rng.random() < 0.16:
+                if os.environ.get("GMXLIB"):
+                    os.environ.pop("GMXLIB")
+                    events.append({"op": "setenv", "path": "", "dirs": []})
+                else:
+                    os.environ["GMXLIB"] = str(libdir)
+                    events.append({"op": "setenv", "path": "", "dirs": ["library"]})
+                continue
+            if envhist and p in have and rng.random() < 0.3:
+                inlib = True                  # the next run parks its output under the same name in the library directory
+            # while the search path lists the library directory and it holds a file of this name: read the topology more often
+            clash = envhist and bool(os.environ.get("GMXLIB")) and (libdir / itp.name).exists() and p in have
+            if clash and rng.random() < 0.5:
+                rb, seen, logged = _tapped(iu.read_back, itp, name, wd)
+                empty = {"name": "", "nrexcl": "", "atoms": [], "inter": []}
+                events.append({"op": "read", "path": p, "now": iu.tokenise(itp.read_text()), "readok": "read_error" not in rb,
+                               "read": rb.get("read", empty), "read2": rb.get("read2", empty), "read_error": rb.get("read_error", ""),
+                               "seen": seen, "logged": logged})
+            elif p not in have or inlib or rng.random() < 0.4:
                 level = None
                 if ngen == first_error:
                     level = "error"
@@ -735,15 +876,22 @@ def _hist_trace_body(seed):
                         (sub / "msg.ff").write_text(iu.message_only_link(blk2, atom2, level))
                         argv += ["-f", str(sub / "msg.ff")]
                         said = {"level": level, "on": "message-only link"}
-                    argv += ["-seq", "%s:%d" % (blk2, rng.randint(2, 6)), "-name", name, "-o", itp.name]
+                    if rng.random() < 0.25:        # the same kind of polymer asked for with a long list of blocks
+                        blocks = ["%s:%d" % (blk2, rng.randint(1, 2)) for _ in range(rng.randint(9, 14))]
+                    else:
+                        blocks = ["%s:%d" % (blk2, rng.randint(2, 6))]
+                    argv += ["-seq"] + blocks + ["-name", name, "-o", str(libdir / itp.name) if inlib else itp.name]
                 else:
                     ff, seq, _ = iu.random_polymer(rng, exotic=False)
                     if level:
                         ff, said = iu.add_messages(ff, rng, level)
                     (sub / "in.ff").write_text(ff)
                     (sub / "seq.json").write_text(seq)
-                    argv = ["polyply", "gen_params", "-f", str(sub / "in.ff"), "-seqf", str(sub / "seq.json"), "-name", name, "-o", itp.name]
+                    argv = ["polyply", "gen_params", "-f", str(sub / "in.ff"), "-seqf", str(sub / "seq.json"), "-name", name,
+                            "-o", str(libdir / itp.name) if inlib else itp.name]
                 rec = iu.run_command(argv, wd, keep_existing=True, live_log=True)
+                if inlib:
+                    p = "L:" + p
                 if not rec["accepted"]:
                     events.append({"op": "other", "path": p, "seen": rec["seen"], "logged": rec["logged"], "exception": rec["exception"]})
                     continue
@@ -751,7 +899,7 @@ def _hist_trace_body(seed):
                 events.append({"op": "gen", "path": p, "written": bool(rec["written"] and not rec["exception"]), "built": built,
                                "lines": iu.tokenise(rec["text"]), "argv": argv[:2] + [a for a in argv[2:] if not a.startswith("/")], "exception": rec["exception"],
                                "msgs": rec["msgs"], "seen": rec["seen"], "logged": rec["logged"], "force field says": json.dumps(said) if said else ""})
-                if rec["written"]:
+                if rec["written"] and not inlib:
                     have.add(p)
             elif rng.random() < 0.5:
                 rb, seen, logged = _tapped(iu.read_back, itp, name, wd)
@@ -810,11 +958,25 @@ def history_traces(ck, tier, sd):
               "gens after the process had logged an error": 0, "gens after the process had logged a warning": 0,
               "gens over an existing file after the process had logged an error": 0, "runs refused (other)": 0}
     first_error_at = {}
+    envcov = {"setenv events": 0, "gens into the library directory": 0, "reads while the search path lists a same-named other file": 0,
+              "gens asked for with 9 or more -seq blocks": 0}
     for i, tr in enumerate(traces):
         gens, readat = {}, {}
         held = "library" if seeds[i] % 3 == 0 else None
         ng = 0
+        tenv, text = [], {}
         for e in tr:
+            if e["op"] == "setenv":
+                tenv = e["dirs"]
+                envcov["setenv events"] += 1
+                continue
+            if e["op"] == "gen":
+                text[e["path"]] = json.dumps(e["lines"])
+                envcov["gens into the library directory"] += 1 if e["path"].startswith("L:") else 0
+                words = e["argv"][e["argv"].index("-seq") + 1:] if "-seq" in e["argv"] else []
+                envcov["gens asked for with 9 or more -seq blocks"] += 1 if sum(1 for w in words if ":" in w and not w.startswith("-")) >= 9 else 0
+            if e["op"] == "read" and tenv and text.get("L:" + e["path"], text.get(e["path"])) != text.get(e["path"]):
+                envcov["reads while the search path lists a same-named other file"] += 1
             if e["op"] == "other":
                 msgcov["runs refused (other)"] += 1
             if e["op"] == "gen":
@@ -861,6 +1023,9 @@ def history_traces(ck, tier, sd):
         raise c.MachineryError("the recorded histories hardly ever read a path again after rewriting it (%d) / read into a force field that holds "
                                "another block of the name (%d)" % (rereads, ffreuse))
     ck.extra["history_trace_message_state"] = msgcov
+    ck.extra["history_trace_environment_and_requests"] = envcov
+    if (envcov["reads while the search path lists a same-named other file"] < 15 or envcov["gens asked for with 9 or more -seq blocks"] < 15) and not ck.violations:
+        raise c.MachineryError("the recorded histories hardly exercise the environment / long requests: %s" % envcov)
     ck.extra["history_trace_first_error_message_at_run_number"] = {str(k): first_error_at[k] for k in sorted(first_error_at)}
     if (min(msgcov["gens carrying an info message"], msgcov["gens carrying a warning message"], msgcov["gens carrying an error message"]) < 15
             or msgcov["gens after the process had logged an error"] < 40 or msgcov["gens over an existing file after the process had logged an error"] < 15
@@ -926,6 +1091,8 @@ def model_jobs(tier):
     jobs.append(("hist:dev:readerCaches", "ItpRoundTripHist", "Itp_hist_dev_readerCaches.cfg", {"workers": 1, "check": False}))
     jobs.append(("hist:dev:readerReusesBlock", "ItpRoundTripHist", "Itp_hist_dev_readerReusesBlock.cfg", {"workers": 1, "check": False}))
     jobs.append(("hist:dev:writerAppends", "ItpRoundTripHist", "Itp_hist_dev_writerAppends.cfg", {"workers": 1, "check": False}))
+    jobs.append(("hist:dev:searchPath", "ItpRoundTripHist", "Itp_hist_dev_searchPath.cfg", {"workers": 1, "check": False}))
+    jobs.append(("req:dev:headerFold", "ItpRoundTripReq", "Itp_req_dev_headerFold.cfg", {"workers": 1, "check": False}))
     jobs.append(("hist:dev:errGate", "ItpRoundTripHist", "Itp_hist_dev_errGate.cfg", {"workers": 1, "check": False}))
     jobs.append(("hist:dev:errGateRead", "ItpRoundTripHist", "Itp_hist_dev_errGateRead.cfg", {"workers": 1, "check": False}))
     jobs.append(("find:mass", "Itp_MassOnly", "Itp_find_massonly.cfg", {"workers": 1, "check": False}))
@@ -967,12 +1134,18 @@ def run(tier):
     th = threading.Thread(target=background)
     th.start()
     try:
-        ex, exf, exh, exhf, exhm = c.tlc_many([("Itp_Quick" if tier == "quick" else "Itp_Full", "Itp_export.cfg", {"workers": 3, "timeout": 3000}),
+        ex, exf, exh, exhf, exhm, exhe, exrq = c.tlc_many([("Itp_Quick" if tier == "quick" else "Itp_Full", "Itp_export.cfg", {"workers": 3, "timeout": 3000}),
                                          ("Itp_Find", "Itp_export_find.cfg", {"workers": 1}),
                                          ("ItpRoundTripHist", "Itp_hist_deep.cfg", {"workers": 3, "timeout": 3000}),
                                          ("ItpRoundTripHist", "Itp_hist_ff.cfg", {"workers": 2, "timeout": 3000}),
-                                         ("ItpRoundTripHist", "Itp_hist_msg.cfg", {"workers": 2, "timeout": 3000})],
+                                         ("ItpRoundTripHist", "Itp_hist_msg.cfg", {"workers": 2, "timeout": 3000}),
+                                         ("ItpRoundTripHist", "Itp_hist_env.cfg", {"workers": 1, "timeout": 3000}),
+                                         ("ItpRoundTripReq", "Itp_req.cfg", {"workers": 1, "timeout": 3000})],
                                         workers_each=None)
+        ck.model_must_hold(exhe, "ReadIsCurrent / EnvLeavesRunDirectory on all histories that also write same-named files into a library directory and "
+                                 "put that directory on / take it off the include search path of the environment (GMXLIB)")
+        ck.model_must_hold(exrq, "WriterMeetsWriteReq / HeaderIsComment / RoundTripReq / ResGraphReq / RequestInert for chains asked for with -seq lists of 1..13 blocks "
+                                 "and with a sequence file (the header made from the request is comment lines only)")
         ck.model_must_hold(exhm, "OutputIgnoresLog / GenWritesWhateverLogged / LogSurvivesCalls / OnlyRunsLog / ReadIsCurrent on all histories in which a run's force field "
                                  "carries an [ info ] / [ warning ] / [ error ] message on its blocks or on an applied link (process message state plog)")
         ck.model_must_hold(exhf, "ReadIsCurrent with reads through from_itp into one long-lived force field (fresh, or holding the generating library's block)")
@@ -1044,10 +1217,14 @@ def run(tier):
         ck.extra["gen_coords_runs"] = len(pick) - nov
         ck.extra["gen_coords_no_verdict"] = nov
         ck.require(len(pick) >= 20 and nov <= len(pick) // 5, "gen_coords subset too small or too many runs without verdict (%d of %d)" % (nov, len(pick)))
+        # ---- 3a. the request is input
+        ck.stage("S->I: the same chains asked for with -seq block lists of every length and with a sequence file")
+        request_replay(ck, exrq)
+        exrq.out = ""
         # ---- 3b. in-process histories
         ck.stage("S->I: in-process histories (write to the same paths again and again, read in between)")
-        history_replay(ck, exh, exhf, exhm, tier, rng)
-        exh.out = exhf.out = exhm.out = ""
+        history_replay(ck, exh, exhf, exhm, exhe, tier, rng)
+        exh.out = exhf.out = exhm.out = exhe.out = ""
         ck.stage("I->S: seeded in-process histories validated by ItpRoundTripHistTrace")
         history_traces(ck, tier, sd)
         # ---- 4. I->S
@@ -1077,6 +1254,8 @@ def run(tier):
     ck.model_must_refute(results["hist:dev:writerAppends"], "ReadIsCurrent", "the writer appends to an existing output file")
     ck.model_must_refute(results["hist:dev:errGate"], "OutputIgnoresLog", "the output is withheld when the process has logged an error-level message (in this or an earlier call)")
     ck.model_must_refute(results["hist:dev:errGateRead"], "ReadIsCurrent", "the same deviation seen by a reader: the path still holds what an earlier run wrote")
+    ck.model_must_refute(results["hist:dev:searchPath"], "ReadIsCurrent", "an #include is looked up along the search path of the environment and the last hit wins")
+    ck.model_must_refute(results["req:dev:headerFold"], "RoundTripReq", "a long header entry (many -seq blocks) is folded and only its first line is a comment")
     ck.model_must_refute(results["find:mass"], "LawsAtStart", "an atom with a mass but no charge (finding %s)" % SIG_MASS)
     ck.model_must_refute(results["find:edge"], "LawsAtStart", "a linked residue pair without bond or constraint (finding %s)" % SIG_EDGE)
     ck.model_must_refute(results["find:arz"], "LawsAtStart", "angle_restraints_z listed with the higher atom first (finding %s)" % SIG_ARZ)
@@ -1095,6 +1274,10 @@ def replay(path):
         status, what = judge(case["case"], rec)
         print("replayed:", status, what)
         return 1 if status == "violation" else 0
+    if case["kind"] == "request":
+        k, status, what = _req_one((0, case["request"]))
+        print("replayed:", status, what)
+        return 1 if status == "violation" else (2 if status == "machinery" else 0)
     if case["kind"] == "history":
         f = Path(tempfile.mkdtemp(prefix="verif_c11h_", dir="/var/tmp")) / "h.json"
         f.write_text(json.dumps({"mols": case["mols"], "hists": [(0, case["history"])]}))
